@@ -137,11 +137,6 @@ static int run_streaming(int mode, const uint8_t *in, size_t inlen, vrng *r, int
 		if (++calls > bound) { viol_ev("no-termination", "decode not finished after %ld calls", calls); res->capped = 1; goto fail; }
 		if (s->avail_in == 0 && given < inlen) {
 			size_t want = split_in >= 0 ? (first_in ? (size_t) split_in : inlen - given) : csize(r, ICH, NICH, ikind); if (want > inlen - given) want = inlen - given; if (want > CHMAX - 64) want = CHMAX - 64;
-			if (first_in && mode == ISAL_GZIP && inlen >= 4 && (in[3] & 0x1e)) {   /* gzip header with optional fields */
-				rwrap_t hw; int he = rwrap_header(&hw, RW_GZIP, in, inlen); size_t hl = he == 0 || he == RWE_HCRC ? hw.hdr_len : inlen;
-				if (split_in < 0 && vrn(r, 2) && hl <= CHMAX - 64) { size_t w2 = hl + vrn(r, 40); want = w2 < inlen ? w2 : inlen; if (want > CHMAX - 64) want = CHMAX - 64; }      /* half of the time keep the header in one call */
-				if (want < hl) g_shape = "gzip-optional-header-fields-split-across-calls";
-			}
 			first_in = 0;
 			if (chunked) { if (icur) { gs_reset(icur); gs_release(icur); } icur = s_ic[irot++ % NCH]; if (icur->released) gs_reacquire(icur); uint8_t *p = gs_place(icur, want, vrn(r, 3) ? G_END : G_START, 0); memcpy(p, in + given, want); s->next_in = p; }
 			else s->next_in = s_in->cur + given;
